@@ -23,6 +23,7 @@ import copy
 from typing import Dict, List, Optional, Set
 
 ENTRY = {"convert", "start", "main", "unsquash"}
+ENTRY_STRUCTURED = {"convert", "convert_file", "generate"}  # `if c: return x` + rest is read as if/else
 
 
 class _Subst(ast.NodeTransformer):
@@ -180,6 +181,8 @@ class _Inliner:
         if isinstance(f, ast.Attribute) and isinstance(f.value, ast.Name) and f.value.id in ("self", "cls") and f.attr in self.methods:
             m = self.methods[f.attr]
             static = any(isinstance(d, ast.Name) and d.id == "staticmethod" for d in m.decorator_list)
+            if any(not (isinstance(d, ast.Name) and d.id == "staticmethod") for d in m.decorator_list):
+                return None
             if static:
                 return m
             if any(isinstance(d, ast.Name) and d.id in ("property",) for d in m.decorator_list) or not m.args.args:
@@ -357,7 +360,8 @@ def normalise_module(tree: ast.Module) -> ast.Module:
             v = n.value
             if isinstance(v, (ast.List, ast.Tuple, ast.Constant, ast.ListComp, ast.BinOp, ast.Dict)) and not any(isinstance(c, ast.Call) and not (isinstance(c.func, ast.Name) and c.func.id in ("pack", "range", "len", "tuple", "list")) for c in ast.walk(v)):
                 data[n.targets[0].id] = n
-    helpers: Dict[str, ast.FunctionDef] = {f.name: f for f in t.body if isinstance(f, ast.FunctionDef) and f.name not in ENTRY and f.name not in ("getbit", "pack", "iotostr", "strtoio")}
+    # (a decorated function - lru_cache, contextmanager ... - is not its body: never inlined)
+    helpers: Dict[str, ast.FunctionDef] = {f.name: f for f in t.body if isinstance(f, ast.FunctionDef) and f.name not in ENTRY and f.name not in ("getbit", "pack", "iotostr", "strtoio") and not f.decorator_list}
     for fn in [f for f in ast.walk(t) if isinstance(f, ast.FunctionDef)]:
         for n in ast.walk(fn):
             if isinstance(n, ast.FunctionDef) and n is not fn and n.name not in helpers and n.name not in ENTRY:
@@ -402,6 +406,32 @@ def normalise_module(tree: ast.Module) -> ast.Module:
                 changed = changed or inl.changed
             if not changed:
                 break
+    # `if A and h(x): body` (no else) with a helper call in a later operand: `if A: t = h(x); if t: body`
+    def split_and(stmts: List[ast.stmt], known: Dict[str, ast.FunctionDef], counter: List[int]) -> List[ast.stmt]:
+        out_: List[ast.stmt] = []
+        for st in stmts:
+            for fld in ("body", "orelse", "finalbody"):
+                sub = getattr(st, fld, None)
+                if isinstance(sub, list) and sub and isinstance(sub[0], ast.stmt) and not isinstance(st, ast.FunctionDef):
+                    setattr(st, fld, split_and(sub, known, counter))
+            if isinstance(st, ast.If) and not st.orelse and isinstance(st.test, ast.BoolOp) and isinstance(st.test.op, ast.And) and len(st.test.values) == 2:
+                a_, b_ = st.test.values
+                if isinstance(b_, ast.Call) and isinstance(b_.func, ast.Name) and b_.func.id in known and not any(isinstance(c, ast.Call) and isinstance(c.func, ast.Name) and c.func.id in known for c in ast.walk(a_)):
+                    counter[0] += 1
+                    tmp = f"cond__{b_.func.id}{counter[0]}"
+                    inner = ast.If(ast.Name(tmp, ast.Load()), st.body, [])
+                    outer = ast.If(a_, [ast.Assign([ast.Name(tmp, ast.Store())], b_), inner], [])
+                    for x in (inner, outer, outer.body[0]):
+                        ast.copy_location(x, st)
+                    ast.fix_missing_locations(outer)
+                    out_.append(outer)
+                    continue
+            out_.append(st)
+        return out_
+
+    cnt_ = [0]
+    for fn in [f for f in t.body if isinstance(f, ast.FunctionDef)]:
+        fn.body = split_and(fn.body, {k: v for k, v in helpers.items() if k != fn.name}, cnt_)
     # module-level scalar constants are propagated into every function that does not re-bind the name
     consts: Dict[str, ast.Constant] = {}
     rebound_at_module = [n.targets[0].id for n in t.body if isinstance(n, ast.Assign) and len(n.targets) == 1 and isinstance(n.targets[0], ast.Name)]
@@ -442,5 +472,49 @@ def normalise_module(tree: ast.Module) -> ast.Module:
             return n
 
     t = _Fold().visit(t)
+    # a second inlining round for what the splitting exposed, then structure early returns of the entry functions
+    for fn in [f for f in t.body if isinstance(f, ast.FunctionDef)]:
+        lh = dict(helpers)
+        lh.pop(fn.name, None)
+        inl2 = _Inliner(lh)
+        inl2.counter = 900
+        fn.body = inl2.stmt_inline(fn.body)
+        inl2.expr_inline(fn)
+        if fn.name in ENTRY_STRUCTURED:
+            fn.body = _structure_returns(fn.body)
+    # local aliases of attribute chains (`x = a.b.c`, bound once, `a` bound at most once) are substituted back
+    def is_chain(e: ast.AST) -> bool:
+        while isinstance(e, ast.Attribute):
+            e = e.value
+        return isinstance(e, ast.Name)
+
+    for fn in [f for f in t.body if isinstance(f, ast.FunctionDef) and f.name in ENTRY_STRUCTURED | {"start"}]:
+        binds: Dict[str, List[ast.Assign]] = {}
+        for n in ast.walk(fn):
+            if isinstance(n, ast.Assign) and len(n.targets) == 1 and isinstance(n.targets[0], ast.Name):
+                binds.setdefault(n.targets[0].id, []).append(n)
+        stores = {}
+        for n in ast.walk(fn):
+            if isinstance(n, ast.Name) and isinstance(n.ctx, ast.Store):
+                stores[n.id] = stores.get(n.id, 0) + 1
+        params = {a.arg for a in fn.args.args + fn.args.kwonlyargs}
+        m_: Dict[str, ast.AST] = {}
+        for name, bs in binds.items():
+            if len(bs) == 1 and stores.get(name) == 1 and isinstance(bs[0].value, ast.Attribute) and is_chain(bs[0].value):
+                root = bs[0].value
+                while isinstance(root, ast.Attribute):
+                    root = root.value
+                if stores.get(root.id, 0) <= 1 and root.id != name and name not in params:
+                    m_[name] = bs[0].value
+        if m_:
+            class _Drop(ast.NodeTransformer):
+                def visit_Assign(self, n):
+                    if len(n.targets) == 1 and isinstance(n.targets[0], ast.Name) and n.targets[0].id in m_ and n.value is m_[n.targets[0].id]:
+                        return None
+                    return self.generic_visit(n)
+
+            fn.body = [x for x in (_Drop().visit(st) for st in fn.body) if x is not None]
+            for _r in range(3):
+                fn.body = [_Subst(m_).visit(st) for st in fn.body]
     ast.fix_missing_locations(t)
     return t
